@@ -62,7 +62,7 @@ WFold(e, w, i) ==
     \cup (IF o.st # x.st THEN {}
           \* after the first failure of the sink itself: only what was accepted before stays (a failing stream or
           \* descriptor may have taken part of the last transfer; its state is unspecified from then on)
-          ELSE IF x.w.dead /\ (~e.bounded \/ e.kind \in {"lstream", "fdfull"}) THEN Tag(IsPrefixOf(w.out, e.out), "output")
+          ELSE IF x.w.dead /\ (~e.bounded \/ e.kind \in {"lstream", "fdfull", "fdpart"}) THEN Tag(IsPrefixOf(w.out, e.out), "output")
           ELSE WFold(e, x.w, i + 1))
 
 \* bytes produced by compile-time serialization equal those produced at run time (by the constexpr writer and
